@@ -132,6 +132,17 @@ def run_property(prop: str, tier: str, runfn, explanation: str, root: str,
                     f"(anchor moved or construct no longer recognised)")
         if not ctx.obs:
             raise AnalysisError("no rule instance was evaluated")
+        if tier == "thorough" and not os.environ.get("PTSTAT_NO_SELFTEST") and not any(not o.ok for o in ctx.obs):
+            from . import selftest
+            res = selftest.run(prop, root)
+            ctx.extra["selftest"] = res
+            misses = [r for r in res if r["result"] == "MISS"]
+            ctx.unit("selftest_edits", len(res))
+            ctx.unit("selftest_skipped", sum(1 for r in res if r["result"] == "skipped"))
+            if misses:
+                raise AnalysisError("self-test: " + "; ".join(
+                    f"{'seeded edit not reported' if r['kind'] == 'fire' else 'behaviour-preserving twin raised an alarm'}: {r['note']}"
+                    for r in misses[:3]))
     except AnalysisError as exc:
         err = f"{exc}"
         status = 2
